@@ -582,6 +582,12 @@ var hCorpus = []HScenario{
 	{Configs: []HConfig{{"ok", 0, 200, 1000, []HRoute{{"alpha", "/"}}}}, Ops: []HOp{{Kind: "req:40"}, {Kind: "req:60"}, {Kind: "cancel"}}},
 	{Configs: []HConfig{{"ok", 0, 100, 1000, []HRoute{{"alpha", "/"}}}, {"ok", 1, 100, 1000, []HRoute{{"alpha", "/"}}}},
 		Ops: []HOp{{Kind: "reload", Async: true}, {Kind: "stop", AtMs: 30}}},
+	// a drain timeout of zero with a request in flight: Stop returns at once and Run reports the timeout
+	{Configs: []HConfig{{"ok", 0, 0, 1000, []HRoute{{"alpha", "/"}}}}, Ops: []HOp{{Kind: "req:600"}, {Kind: "stop"}}},
+	{Configs: []HConfig{{"ok", 0, 0, 1000, []HRoute{{"alpha", "/"}, {"beta", "/b"}}}}, Ops: []HOp{{Kind: "req:700"}, {Kind: "req:500"}, {Kind: "cancel"}}},
+	// boot onto an address that a foreign listener holds (and answers on): never Running
+	{Configs: []HConfig{{"busy", 0, 100, 1000, []HRoute{{"alpha", "/"}}}}, Ops: []HOp{{Kind: "stop"}}},
+	{Configs: []HConfig{{"busy", 0, 100, 1000, []HRoute{{"alpha", "/"}, {"beta", "/b"}}}}, Ops: nil},
 }
 
 func runHTTPSrv(o Opts) {
@@ -650,6 +656,26 @@ func runHTTPSrv(o Opts) {
 		}
 		ev := strings.Join(r.events, " ")
 		h := hHeader(j.sc, r)
+		zeroDrain, allBusy := false, true
+		for _, c := range j.sc.Configs {
+			zeroDrain = zeroDrain || c.DrainMs == 0
+			allBusy = allBusy && c.Kind == "busy"
+		}
+		if allBusy {
+			// every address the runner is given is held by somebody else: it must never report Running
+			if r.stream != "" {
+				e.Case("c12busyholds "+strings.TrimPrefix(r.stream, "c08streamholds ")+" scn~"+h[strings.Index(h, "scn~")+4:], "true")
+				e.Nontrivial("busy " + ev)
+			}
+			continue
+		}
+		if zeroDrain {
+			// a drain timeout of zero: every stop reports the timeout, at once (the operation-level model has no such
+			// configuration; only the C14 statement is evaluated)
+			e.Case("c14holds "+h+" "+ev, "true")
+			e.Nontrivial("drain0 " + ev)
+			continue
+		}
 		for _, c := range []string{"c12holds", "c13holds", "c14holds"} {
 			e.Case(c+" "+h+" "+ev, "true")
 		}
